@@ -24,12 +24,13 @@ Engines
     pool programs in several orders, parse()/emit() interleavings, the same Program emitted twice, concurrent threads, and
     compares with the text of the program alone; a failing pair is confirmed in fresh processes and reported as the replay.
 
-The harness recognises two shapes of the source (promotion_shape): "pinned" - the hoisting order of
-_promote_branch_decls follows the set iteration order (known finding F-C10-promotion-order; the byte-identity oracle
-is applied inside the model's guard only); "repaired" - it no longer does and the inventory shows no unsorted set
-iteration left in that function (sorted(), first-assignment order ...: then EVERY generated program is under the
-byte-identity oracle, C10_candidate_fix_order_independent being the operative theorem, and the dictated-order
-correspondence is checked up to permutation).
+F-C10-promotion-order (hoisting order of _promote_branch_decls = set iteration order) is REPAIRED in the project
+(`for name in sorted(new_names)` / `sorted(promoted_set)`, known_findings.d/C10.json kind "fixed"); the model is the model
+of the repaired code (C10_order_independent, no guard), so EVERY generated program is under the byte-identity oracle and
+half of the random skeleton programs are drawn outside the guard that finding used to need (several new names per branch).
+A fixed entry suppresses nothing: its witness is replayed first, and if it fails again it is reported as a VIOLATION whose
+replay is that witness.  promotion_shape() is kept as a measured description of the source under test ("sorted" /
+"follows-set-order" / "other") for the evidence; no verdict depends on it.
 """
 from __future__ import annotations
 
@@ -42,8 +43,8 @@ from harness import common as C
 
 META = {
     "id": "C10",
-    "technique": "Coq proof (set-iteration oracle model of variable promotion; sorted() sites; inventory of set iterations and module state regenerated from the source by an ast walker) + extracted-model correspondence with parse()+emit() and with _promote_branch_decls under dictated iteration orders + sha256 oracle across PYTHONHASHSEED subprocesses / dictated set iteration orders / process environments / repeated / interleaved transpilations; session model of the ctx registries with a module-level store (statelessness theorem + refutation for a shared default) instantiated by the regenerated inventory of module-level mutable objects, setdefault/get defaults and seeded ctx keys; one-name-two-roles sessions (every ordered pair of 25 roles), parse/emit interleavings, concurrent threads",
-    "level_text": "Theorems C10_* (coq/Props/C10.v): sorted() sites are order independent; promotion is independent of the set-iteration oracle for constructs (and whole programs of the modelled fragment, C10_partial) whose branches each contribute at most one not-yet-recorded new name, and refuted beyond (C10_promotion_order_refuted, C10_two_names_in_a_branch_refuted: the output order does depend on the oracle - known finding); being inside the guard does not depend on the oracle; only the ORDER can vary (C10_result_is_permutation); the candidate repair (sorted() at the four sites) is order independent without guard and conservative inside it; the rank oracles used by the harness are permutations and reach every order; every set iteration found in the current parser.py/emitter.py by the translator is sorted, order-insensitive or modelled (C10_sites_accounted), no function mutates module-level state (C10_no_module_state), only pure modules are imported and no hash/id/open/eval... is used (C10_imports_are_pure, C10_no_ambient_builtins). Statelessness across calls: the session model of the device-name registries (coq/Lang/DevSession.v: ctx keys created by setdefault / read by get, a module-level store threaded through the session) gives every program its own translation whatever was transpiled before, provided no lazily created key takes a module-level object as default (C10_session_stateless, C10_parse_leaves_module_store), one shared default suffices to refute it (C10_shared_default_refuted, witness x = SerialMonitor(..) then x = Potentiometer(..); y = x.read()), and the configuration regenerated from the current source is inside the guard (C10_current_source_defaults_fresh, C10_session_stateless_current_source); no module-level mutable object of the three files is mutated or escapes (C10_module_objects_never_escape, C10_no_shared_default, C10_ctx_seeded_fresh). The model is run against the real parse()+emit() skeleton and against _promote_branch_decls with dictated orders; the property itself is tested by sha256 across hash seeds, dictated set orders, other CPython builds, processes, repetitions and interleavings.",
+    "technique": "Coq proof (set-iteration oracle model of variable promotion as repaired: every hoisting loop walks sorted(set); sorted() sites; inventory of set iterations and module state regenerated from the source by an ast walker, with the obligation that NO set iteration reaches an order-sensitive consumer unsorted) + extracted-model correspondence with parse()+emit() and with _promote_branch_decls under dictated iteration orders + sha256 oracle for EVERY generated program across PYTHONHASHSEED subprocesses / dictated set iteration orders / process environments / repeated / interleaved transpilations; session model of the ctx registries with a module-level store (statelessness theorem + refutation for a shared default) instantiated by the regenerated inventory of module-level mutable objects, setdefault/get defaults and seeded ctx keys; one-name-two-roles sessions (every ordered pair of 25 roles), parse/emit interleavings, concurrent threads",
+    "level_text": "Theorems C10_* (coq/Props/C10.v): the declaration-and-block skeleton of the translation is independent of every set-iteration oracle, for every program of the modelled fragment and every construct, without guard (C10_order_independent, C10_construct_order_independent, C10_session_order_independent; the two construct shapes that used to separate two oracles no longer do: C10_two_names_in_a_branch, C10_two_unmet_names_in_a_loop), and the order that comes out is the one a code-point-ordered walk yields (C10_promotion_order_is_canonical, C10_translation_is_canonical); sorted() sites are order independent; the same algorithm walking the sets unsorted (the code before the repair of F-C10-promotion-order) IS order dependent (C10_unsorted_walk_is_order_dependent) and the repair changed no output inside the former guard (C10_repair_conservative); the rank oracles used by the harness are permutations and reach every order; every set iteration found in the current parser.py/emitter.py by the translator is sorted or order-insensitive (C10_no_unsorted_set_iteration), the sorted() sites named by the property and the four loops of the repair are present and sorted (C10_sorted_sites_present, C10_repaired_sites_sorted), no function mutates module-level state (C10_no_module_state), only pure modules are imported and no hash/id/open/eval... is used (C10_imports_are_pure, C10_no_ambient_builtins). Statelessness across calls: the session model of the device-name registries (coq/Lang/DevSession.v: ctx keys created by setdefault / read by get, a module-level store threaded through the session) gives every program its own translation whatever was transpiled before, provided no lazily created key takes a module-level object as default (C10_session_stateless, C10_parse_leaves_module_store), one shared default suffices to refute it (C10_shared_default_refuted, witness x = SerialMonitor(..) then x = Potentiometer(..); y = x.read()), and the configuration regenerated from the current source is inside the guard (C10_current_source_defaults_fresh, C10_session_stateless_current_source); no module-level mutable object of the three files is mutated or escapes (C10_module_objects_never_escape, C10_no_shared_default, C10_ctx_seeded_fresh). The model is run against the real parse()+emit() skeleton and against _promote_branch_decls with dictated orders (exact equality); the property itself is tested by sha256 across hash seeds, dictated set orders, other CPython builds, processes, repetitions and interleavings, on every generated program.",
     "level_note": "Trusted: Coq kernel, translator harness/gen/setsites.py (syntactic, fail-closed ast walker), extraction, OCaml driver, CPython's PYTHONHASHSEED as the source of set-order variation. CPython set internals are over-approximated by an arbitrary permutation oracle; absence of module-level state is shown statically for the two transpiler files (ast walk) and by observation (repeated / interleaved transpilations), not by proof about CPython.",
     "design_ref": "DESIGN.md section 4 C10, Appendix B.1, B.3",
 }
@@ -460,57 +461,6 @@ def decode_model(m):
             "setup": [node(n) for n in s], "loop": [node(n) for n in l]}, bool(ok)
 
 
-def derive_tags(items, obs):
-    """read the iteration order each construct must have used off the observed output: the names of the declaration /
-    (rewritten) assignment nodes that immediately precede the construct; global constructs: the order of the globals"""
-    tags = {}
-    gnames = [g[0] for g in obs["globals"]]
-    kindcode = {"if": 2, "wh": 3, "for": 4, "try": 5}
-
-    def walk(stmts, nodes, path_of, glob):
-        i = 0
-        for k, s in enumerate(stmts):
-            p = path_of(k)
-            if s[0] == "a":
-                if glob:
-                    if i < len(nodes) and nodes[i][0] == 1 and nodes[i][1] == s[1]:
-                        i += 1
-                else:
-                    i += 1
-                continue
-            j = i
-            while j < len(nodes) and nodes[j][0] != kindcode[s[0]]:
-                j += 1
-            if j >= len(nodes):
-                return
-            tags[p] = gnames if glob else [n[1] for n in nodes[i:j] if n[0] in (0, 1)]
-            nd = nodes[j]
-            if s[0] in ("if", "try"):
-                for b, (src_b, obs_b) in enumerate(zip(s[1], nd[1])):
-                    walk(src_b, obs_b, lambda q, p=p, b=b: p + (b, q), False)
-            elif s[0] == "wh":
-                walk(s[1], nd[1], lambda q, p=p: p + (0, q), False)
-            else:
-                walk(s[2], nd[2], lambda q, p=p: p + (0, q), False)
-            i = j + 1
-
-    setup_i = 0
-    fun_i = 0
-    setup_stmts, setup_paths = [], []
-    for k, it in enumerate(items):
-        if it[0] == "s":
-            setup_stmts.append(it[1])
-            setup_paths.append((k,))
-        elif it[0] == "def":
-            if fun_i < len(obs["funs"]):
-                walk(it[2], obs["funs"][fun_i][1], lambda q, k=k: (k, q), False)
-            fun_i += 1
-        else:
-            walk(it[1], obs["loop"], lambda q, k=k: (k, q), False)
-    walk(setup_stmts, obs["setup"], lambda q: setup_paths[q], True)
-    return tags
-
-
 # ---------------------------------------------------------------------------------------------------------
 # ordinary (device) programs: every other set of the transpiler gets several elements
 # ---------------------------------------------------------------------------------------------------------
@@ -760,30 +710,61 @@ def differing_lines(a, b, limit=12):
 
 
 def load_findings(ctx):
-    fs = {f["id"]: f for f in ctx.findings}
+    """the package's own file first (known_findings.d/C10.json), then whatever the merged known_findings.json adds"""
+    fs = {}
     p = C.VERIF / "known_findings.d" / "C10.json"
     if p.exists():
         for f in json.loads(p.read_text()):
             fs.setdefault(f["id"], f)
+    for f in ctx.findings:
+        fs.setdefault(f["id"], f)
     return list(fs.values())
 
 
 def replay_finding(f):
-    """-> (still_fails, detail)"""
+    """-> (still_fails, detail): the witness script transpiled in one fresh process per listed hash seed"""
     w = f["witness"]
     shas = {}
     for s in w["seeds"]:
         r = transpile([w["script"]], s, texts=True)["results"][0]
         shas[s] = (r["sha"], r.get("cpp", ""))
     distinct = {v[0] for v in shas.values()}
-    return len(distinct) > 1, {str(s): v[0][:16] for s, v in shas.items()}
+    detail = {}
+    for s, (sha, cpp) in shas.items():
+        try:
+            names = " ".join(g[0] for g in observe(cpp)["globals"])
+        except ValueError:
+            names = None
+        detail[str(s)] = {"sha256": sha[:16], "global_declaration_order": names}
+    return len(distinct) > 1, detail
+
+
+def replay_fixed_findings(ctx):
+    """A fixed entry suppresses nothing: its witness must now PASS.  If it fails again the defect has returned and is reported
+    as a violation whose replay is the witness (never as a KNOWN-FINDING).  Open entries (kind "finding") are replayed and
+    listed as KNOWN-FINDING while they still fail."""
+    n = 0
+    for f in load_findings(ctx):
+        if f.get("property") != "C10" or "script" not in f.get("witness", {}):
+            continue
+        still, detail = replay_finding(f)
+        n += 1
+        if f.get("kind") == "fixed":
+            if still:
+                ctx.fail(f"{f['id']} (recorded as fixed, commit {f.get('commit')}) is back: " + f["what"],
+                         {"witness": f["witness"], "observed_per_hash_seed": detail, "replay": f["witness"].get("replay")},
+                         expected="one sha256 / one declaration order for all hash seeds",
+                         observed=f"{len({d['sha256'] for d in detail.values()})} different texts", key=f["id"])
+        elif still:
+            ctx.known(f"{f['id']}: {f['what']}")
+    return n
 
 
 def promotion_shape():
-    """-> (shape, detail).  'pinned': the hoisting order of _promote_branch_decls follows the iteration order of the set
-    (the code as pinned, known finding F-C10-promotion-order);  'repaired': it does not depend on it AND the inventory
-    of the current source shows no unsorted set iteration left in _promote_branch_decls (any deterministic repair:
-    sorted(), first-assignment order ...);  'unclear': anything else (treated like 'pinned' by the oracle)."""
+    """-> (shape, detail), a measured description of the source under test (evidence only, no verdict depends on it).
+    'sorted': the hoisting order of _promote_branch_decls does not move with the dictated iteration order of the set and
+    the inventory shows no unsorted set iteration in it (the code as repaired);  'follows-set-order': the order is the
+    dictated one (the code before the repair of F-C10-promotion-order);  'other': anything else."""
     names = ["nb", "na", "nd", "nc"]
     orders = [names, list(reversed(names)), ["nc", "na", "nd", "nb"], sorted(names)]
     cases = [{"parent": [], "branches": [{"order": o, "types": {n: "int" for n in names}}], "else": False} for o in orders]
@@ -798,15 +779,15 @@ def promotion_shape():
         def _die(msg):
             raise RuntimeError(msg)
         sites, _state = setsites.analyse(C.REPO / "src" / "Reduino" / "transpile", _die)
-        unsorted_sites = [f"{x['file']}:{x['line']} {x['iter']}" for x in sites if x["class"] == 0 and x["fn"] == "_promote_branch_decls"]
+        unsorted_sites = [f"{x['file']}:{x['line']} {x['fn']} {x['iter']}" for x in sites if x["class"] == 0]
     except Exception as e:  # noqa - the translator step has already reported it
         unsorted_sites = [f"inventory failed: {e}"]
-    detail = {"observed_orders_for_4_dictated_orders": got, "unsorted_set_iterations_in__promote_branch_decls": unsorted_sites}
-    if follows and unsorted_sites:
-        return "pinned", detail
+    detail = {"observed_orders_for_4_dictated_orders": got, "unsorted_set_iterations_reaching_a_consumer": unsorted_sites}
     if constant and not unsorted_sites:
-        return "repaired", detail
-    return "unclear", detail
+        return "sorted", detail
+    if follows:
+        return "follows-set-order", detail
+    return "other", detail
 
 
 # ---------------------------------------------------------------------------------------------------------
@@ -816,14 +797,17 @@ def run(ctx: C.Ctx):
     seeds = [0, 1, 2, 3] + ([rng.randrange(4, 2 ** 32 - 1) for _ in range(4)] if thorough else [])
     dist = {}
     shape, shape_detail = promotion_shape()
-    repaired = shape == "repaired"
     dist["promotion_shape_of_the_current_source"] = {"shape": shape, **shape_detail}
+
+    # ------------------------------------------------------------------ listed findings first: a fixed one that fails again is
+    # the first violation reported, with its witness as the replay
+    dist["listed_witnesses_replayed"] = replay_fixed_findings(ctx)
 
     # ------------------------------------------------------------------ skeleton programs
     skels = template_programs(rng)
     n_rand = 500 if thorough else 70
     for k in range(n_rand):
-        tight = k % 3 != 0
+        tight = k % 2 != 0          # half of them outside the guard F-C10-promotion-order used to need
         g = SkelGen(rng, rng.randint(2, 8), tight=tight)
         skels.append({"items": g.program(), "ty": dict(g.ty), "origin": "random " + ("tight" if tight else "loose")})
     if not thorough:
@@ -834,21 +818,18 @@ def run(ctx: C.Ctx):
     for s in skels:
         s["src"] = render(s["items"], rng)
 
-    # the guard is decided by the model (w_ok with empty tags: the guard does not depend on the oracle)
+    # every program is under the byte-identity oracle (C10_order_independent has no guard).  The model also says which programs
+    # lie outside the guard the finding used to need (o_ok false: some branch contributes two or more new names) - measured.
     have_model = ctx.exe is not None
+    for s in skels:
+        s["in_guard"] = True
     if have_model:
         outs0 = ctx.model([wire_items(s["items"], {}) for s in skels])
         for s, m in zip(skels, outs0):
             if m[0] != 0:
                 ctx.disagree("model could not decode a generated program", s["src"], m, None)
-                s["in_guard"] = False
                 continue
             s["model0"], s["model_ok"] = decode_model(m)
-            # a source whose promotion no longer consumes the set order claims the property for every program
-            s["in_guard"] = s["model_ok"] or repaired
-    else:
-        for s in skels:
-            s["in_guard"] = s["origin"].startswith("random tight") and False
 
     # ------------------------------------------------------------------ ordinary and mixed programs
     n_dev = 160 if thorough else 26
@@ -856,11 +837,12 @@ def run(ctx: C.Ctx):
     for k in range(n_dev):
         src, feats = device_program(rng)
         devs.append({"src": src, "feats": feats, "origin": "device", "in_guard": True})
-    guard_skels = [s for s in skels if s["in_guard"] and s["origin"].startswith("random")]
+    guard_skels = [s for s in skels if s["origin"].startswith("random")]
+    rng.shuffle(guard_skels)
     for k in range(min(len(guard_skels), 80 if thorough else 12)):
         sk = guard_skels[k]
         src, feats = device_program(rng, skeleton=sk["items"], skeleton_ty=sk["ty"])
-        devs.append({"src": src, "feats": feats, "origin": "mixed", "in_guard": True})
+        devs.append({"src": src, "feats": feats, "origin": "mixed", "in_guard": True, "model_ok": sk.get("model_ok")})
 
     progs = skels + devs
     sources = [p["src"] for p in progs]
@@ -923,24 +905,15 @@ def run(ctx: C.Ctx):
                            "emitted C++ differs between two processes that differ only in their environment (locale, time zone, home, user, hook switch)")
                 elif v[0] == "seed":
                     report("hashseed", p, v0, v, p["ref"]["sha"], sb,
-                           "emitted C++ differs between two hash seeds for a program inside the guard")
+                           "emitted C++ differs between two hash seeds")
                 else:
                     report("setorder", p, v0, v, p["ref"]["sha"], sb,
-                           "emitted C++ depends on the iteration order of the transpiler's sets for a program inside the guard")
+                           "emitted C++ depends on the iteration order of the transpiler's sets")
                 break
-    out_guard_varies = 0
-    out_guard_varies_adv = 0
-    for i, p in enumerate(progs):
-        if p["in_guard"]:
-            continue
-        if len({per_seed[("seed", sd)]["results"][i]["sha"] for sd in seeds}) > 1:
-            out_guard_varies += 1
-        if len({per_seed[v]["results"][i]["sha"] for v in variants}) > 1:
-            out_guard_varies_adv += 1
-    dist["in_guard"] = n_in_guard
-    dist["outside_guard"] = len(progs) - n_in_guard
-    dist["outside_guard_varying_with_seed"] = out_guard_varies
-    dist["outside_guard_varying_with_seed_or_dictated_set_order"] = out_guard_varies_adv
+    dist["programs_under_the_byte_identity_oracle"] = n_in_guard
+    dist["of_which_outside_the_pre_repair_guard(several new names in one branch)"] = {
+        "skeleton": sum(1 for p in skels if p.get("model_ok") is False),
+        "mixed": sum(1 for p in devs if p.get("model_ok") is False)}
     dist["dictated_set_orders"] = adv_keys
 
     # ------------------------------------------------------------------ property oracle 1b: other CPython builds (thorough)
@@ -967,9 +940,9 @@ def run(ctx: C.Ctx):
             evaluations += 1
             if ra["results"][i]["sha"] != rb["results"][i]["sha"]:
                 report("hashseed", p, ("py", py, seeds[0]), ("py", py, seeds[1]), ra["results"][i]["sha"], rb["results"][i]["sha"],
-                       "emitted C++ differs between two hash seeds (under another CPython build) for a program inside the guard")
+                       "emitted C++ differs between two hash seeds (under another CPython build)")
         dist["other_interpreters"][py] = {"version": ra.get("python"), "programs_differing_from_the_reference_interpreter": cross,
-                                           "of_which_inside_the_guard(not constrained by the statement, recorded only)": cross_guard}
+                                           "(not constrained by the statement, recorded only)": True}
 
     # ------------------------------------------------------------------ property oracle 2: one process, repeated and interleaved
     guard_idx = [i for i, p in enumerate(progs) if p["in_guard"] and p["ref"]["ok"]]
@@ -1018,7 +991,7 @@ def run(ctx: C.Ctx):
     n_promoting = 0
     promoted_sizes = {}
     if have_model:
-        cases, idx = [], []
+        idx = []
         for si, s in enumerate(skels):
             for v in variants:
                 r = per_seed[v]["results"][si]
@@ -1038,28 +1011,22 @@ def run(ctx: C.Ctx):
             rs = run_variant([skels[si]["src"] for si in lst], v, seeds[0], texts=True)["results"]
             for si, r in zip(lst, rs):
                 texts[(v, si)] = r["cpp"]
-        jobs = []
+        seen_orders = {}
         for (sd, si), cpp in sorted(texts.items()):
             s = skels[si]
+            if "model0" not in s:
+                continue
             try:
                 obs = observe(cpp)
             except ValueError as e:
                 ctx.disagree(f"emitted text of a skeleton program has an unexpected shape: {e}", s["src"], s.get("model0"), cpp[-1500:])
                 continue
-            tags = derive_tags(s["items"], obs)
-            jobs.append((sd, si, obs, tags))
-            cases.append(wire_items(s["items"], tags))
-        outs = ctx.model(cases)
-        seen_orders = {}
-        for (sd, si, obs, tags), m in zip(jobs, outs):
-            s = skels[si]
             n_corr += 1
-            mo, ok = decode_model(m)
-            if mo != obs:
-                ctx.disagree("declaration/block skeleton: no iteration order of the modelled sets explains the emitted text",
-                             {"program": s["src"], "variant": vname(sd), "origin": s["origin"]}, mo, obs)
-            if ok != s.get("model_ok"):
-                ctx.disagree("model guard depends on the oracle", s["src"], ok, s.get("model_ok"))
+            # the model's output does not depend on its oracle (C10_order_independent): ONE skeleton per program, whatever the
+            # hash seed / dictated set order the text was produced under
+            if s["model0"] != obs:
+                ctx.disagree("declaration/block skeleton of the emitted text vs Order.transl (hoisted names in sorted order per branch)",
+                             {"program": s["src"], "variant": vname(sd), "origin": s["origin"]}, s["model0"], obs)
             seen_orders.setdefault(si, set()).add(json.dumps(obs))
         for si, s in enumerate(skels):
             if "model0" in s:
@@ -1114,10 +1081,9 @@ def run(ctx: C.Ctx):
             for br in c["branches"]:
                 br["order"] = sorted(br["order"], key=rank.index)
         impl = C.run_impl("c10_impl.py", {"mode": "promote", "cases": pc})["results"]
-        impl_rev = None
-        if shape != "pinned":
-            pc_rev = [{**c, "branches": [{**br, "order": list(reversed(br["order"]))} for br in c["branches"]]} for c in pc]
-            impl_rev = C.run_impl("c10_impl.py", {"mode": "promote", "cases": pc_rev})["results"]
+        # the same cases with every dictated order reversed: the real function must not move (C10_construct_order_independent)
+        pc_rev = [{**c, "branches": [{**br, "order": list(reversed(br["order"]))} for br in c["branches"]]} for c in pc]
+        impl_rev = C.run_impl("c10_impl.py", {"mode": "promote", "cases": pc_rev})["results"]
         mouts = ctx.model(mcases)
         kinds = {"guard_true": 0, "guard_false": 0}
         for k, (c, mc, r, m) in enumerate(zip(pc, mcases, impl, mouts)):
@@ -1129,16 +1095,11 @@ def run(ctx: C.Ctx):
             want = [[C.wstr(d[0]), d[1]] for d in m[1]]
             kinds["guard_true" if m[2] else "guard_false"] += 1
             types_ok = [TYPES.index(r["types"][n]) for n in r["order"]] == [d[1] for d in got]
-            if shape == "pinned":
-                if got != want or not types_ok:
-                    ctx.disagree("_promote_branch_decls under a dictated iteration order vs promote_if", c, want, got)
-            else:
-                # the order no longer follows the set: the SET of hoisted declarations must still be the model's
-                # (C10_result_is_permutation) and must not move when the dictated order is reversed
-                r2 = impl_rev[k]
-                if sorted(got) != sorted(want) or not types_ok or r2.get("order") != r["order"]:
-                    ctx.disagree("_promote_branch_decls (order-insensitive shape) vs promote_if up to permutation / under the reversed dictated order",
-                                 c, want, {"dictated": got, "reversed": r2})
+            if got != want or not types_ok:
+                ctx.disagree("_promote_branch_decls under a dictated iteration order vs promote (sorted walk, typed from the first recording branch)", c, want, got)
+            r2 = impl_rev[k]
+            if r2.get("order") != r["order"] or r2.get("cpp") != r["cpp"]:
+                ctx.disagree("_promote_branch_decls moves when the dictated iteration order of its sets is reversed", c, got, r2)
         dist["promote_if_dictated_order_cases"] = kinds
 
     # ------------------------------------------------------------------ correspondence 3: sorted() sites
@@ -1191,14 +1152,6 @@ def run(ctx: C.Ctx):
     evaluations += ev_roles
     dist["name_collisions"] = dist_roles
 
-    # ------------------------------------------------------------------ known findings
-    for f in load_findings(ctx):
-        if f.get("kind") == "fixed" or f.get("property") != "C10":
-            continue
-        still, detail = replay_finding(f)
-        if still:
-            ctx.known(f"{f['id']}: {f['what']}")
-
     feats_total = {}
     for d in devs:
         for k, v in d["feats"].items():
@@ -1213,12 +1166,12 @@ def run(ctx: C.Ctx):
     multi = sum(1 for d in devs if max(len(v) for v in d.get("sorted_obs", {"x": []}).values() or [[]]) >= 2)
     ctx.coverage.update({
         "evaluations": evaluations + n_corr + n_prom + n_sorted,
-        "distinct_nontrivial": len({p["src"] for p in progs if p.get("in_guard") and (p["origin"] != "device")}
+        "distinct_nontrivial": len({p["src"] for p in progs if p["origin"] != "device"}
                                    & {s["src"] for s in skels if sum(1 for _ in _iter_hoists(s.get("model0", {}))) > 0}) + multi + n_prom + nt_roles,
-        "rule": "skeleton programs: templates (k = 0..6 names first assigned in an if / if-else / if-elif-else / while / for / try body, at top level, in a function, in the main loop, nested) + seeded random nested programs; device programs: random subsets of every device class with 0..6 instances, callbacks, lists, multi-signature functions, tuple swaps; mixed = both. Every program is transpiled in one subprocess per hash seed and per dictated set order (the name `set` of parser.py/emitter.py bound to a subclass iterating sorted / reverse sorted / in a keyed pseudo-random order), then in one process twice in a row, in reverse order between unrelated programs, shuffled, and (a sample) in fresh processes; sha256 of the text is compared. Name collisions (c10_roles.py): for every ordered pair (a, b) of 25 roles an identifier can have, with a name of its own, the sessions `A B B'` / `all A, then B B' reversed` against `B B'` alone (A = name in role a, B = same name in role b with all probes of b, B' = B + one probe of a); 60 (240) pool programs giving 2-4 of 6 pool names random roles, in 3 (6) orders in one process and after a module reset; parse/emit interleavings (p_i p_j e_j e_i, p_i p_j e_i e_j e_i, p_i e_i e_i, p_i t_j e_i); 4 concurrent threads; 220 (900) + 60 device-registry programs of the DevSession fragment in two orders, compared with transl_dev. Non-trivial = in-guard programs that hoist at least one declaration, every role pair, pool program and accepted device-registry program, device programs whose sorted sites have >= 2 elements, and every dictated-order promotion case.",
+        "rule": "skeleton programs: templates (k = 0..6 names first assigned in an if / if-else / if-elif-else / while / for / try body, at top level, in a function, in the main loop, nested) + seeded random nested programs; device programs: random subsets of every device class with 0..6 instances, callbacks, lists, multi-signature functions, tuple swaps; mixed = both. Every program is transpiled in one subprocess per hash seed and per dictated set order (the name `set` of parser.py/emitter.py bound to a subclass iterating sorted / reverse sorted / in a keyed pseudo-random order), then in one process twice in a row, in reverse order between unrelated programs, shuffled, and (a sample) in fresh processes; sha256 of the text is compared. Name collisions (c10_roles.py): for every ordered pair (a, b) of 25 roles an identifier can have, with a name of its own, the sessions `A B B'` / `all A, then B B' reversed` against `B B'` alone (A = name in role a, B = same name in role b with all probes of b, B' = B + one probe of a); 60 (240) pool programs giving 2-4 of 6 pool names random roles, in 3 (6) orders in one process and after a module reset; parse/emit interleavings (p_i p_j e_j e_i, p_i p_j e_i e_j e_i, p_i e_i e_i, p_i t_j e_i); 4 concurrent threads; 220 (900) + 60 device-registry programs of the DevSession fragment in two orders, compared with transl_dev. Half of the random skeleton programs and most templates put several new names into one branch (the region the guard of the repaired finding F-C10-promotion-order used to exclude; counted in distribution). Non-trivial = programs that hoist at least one declaration, every role pair, pool program and accepted device-registry program, device programs whose sorted sites have >= 2 elements, and every dictated-order promotion case.",
         "samples": [skels[0]["src"], skels[len(skels) // 2]["src"], devs[0]["src"][:1500]],
         "distribution": dist,
-        "guard": "model-decided (Order.guard on every construct met by Order.transl, i.e. o_ok): every if/elif/else/try/except branch contributes at most one name that is neither declared before the construct nor already recorded by an earlier branch of it (names hoisted out of nested constructs included), and every new name of a while/for body is met as a declaration node in the body; programs outside the guard are still used for the correspondence but not for the byte-identity oracle (known finding F-C10-promotion-order)",
+        "guard": "none: every generated program is under the byte-identity oracle and the correspondence (C10_order_independent is unconditional). F-C10-promotion-order is repaired by a fix: commit (known_findings.d/C10.json kind=fixed) - a fixed entry suppresses nothing: on a tree without the sorted() calls C10_no_unsorted_set_iteration / C10_repaired_sites_sorted do not check, the witness replay fails and is reported as a VIOLATION",
         "unmodelled": ["CPython set/dict internals (over-approximated by an arbitrary permutation per construct)",
                        "_promotion_cpp_types staleness across scopes (generated names are type-stable except in flat if/try templates)",
                        "everything of the translation except declarations and block structure (expression text, devices) - covered by the sha256 oracle only",
